@@ -30,11 +30,11 @@ fn sweeps(tier: Tier, property: &str) -> Vec<(Alphabet, usize)> {
     use Alphabet::*;
     match (property, tier) {
         ("C01", Tier::Quick) => vec![(Full, 3), (Sources, 4), (Tracked, 5), (InternGc, 4), (Backdate, 6)],
-        ("C01", Tier::Thorough) => vec![(Full, 4), (Sources, 6), (Tracked, 6), (InternGc, 6), (Backdate, 9)],
+        ("C01", Tier::Thorough) => vec![(Full, 4), (Sources, 6), (Tracked, 6), (InternGc, 5), (Backdate, 8)],
         ("C02", Tier::Quick) => vec![(Full, 3), (Sources, 5), (Tracked, 4), (Backdate, 6)],
-        ("C02", Tier::Thorough) => vec![(Full, 4), (Sources, 6), (Tracked, 6), (InternGc, 5), (Backdate, 10)],
+        ("C02", Tier::Thorough) => vec![(Full, 4), (Sources, 6), (Tracked, 6), (InternGc, 5), (Backdate, 8)],
         ("C03", Tier::Quick) => vec![(Full, 3), (InternGc, 5), (Tracked, 4)],
-        (_, Tier::Thorough) => vec![(Full, 4), (InternGc, 6), (Tracked, 7), (Sources, 5)],
+        (_, Tier::Thorough) => vec![(Full, 4), (InternGc, 6), (Tracked, 6), (Sources, 5)],
         _ => vec![(Full, 3)],
     }
 }
